@@ -389,6 +389,25 @@ def check_r2(rep, fx, W, V, Wv):
                 'neither the failing run, nor the next compile, nor the next run sets ctx.ip past the failed program: a REPL line '
                 'after `1 0 /` re-executes the division', 'state::State::compile_xstr', cx.j['span'])
         return
+    # the failed program is dropped as a whole: where the next source halts it, its loop records, call frames and builder marks
+    # go too - compile + run executes in the base context, where leftovers would be visible (`I` after a failed `do` loop)
+    for fn, w, guards in found:
+        if fn in ('state::State::run', 'state::State::next'):
+            continue
+        f = V(fn)
+        ws = Wv(fn)
+        rets = set(f.return_blocks())
+        missing = []
+        for fld in ('loops', 'return_stack', 'special'):
+            sb = {x['bb'] for x in ws if x['field'][0] == fld and x['how'].startswith('call:shrink')}
+            ok_f = bool(sb) and (any(f.dominates(b, w['bb']) for b in sb) or exists_path_avoiding(f, w['bb'], lambda b: b in rets, sb) is None)
+            if not ok_f:
+                missing.append(fld)
+        if fn != 'state::State::build_abort':
+            rep.add('C10.R2', 'C10.R2:%s:halt-drops-run-time-stacks' % fn, not missing,
+                    'the halted program\'s loop records, frames and builder marks are cut back together with the halt' if not missing else
+                    '%s halts the failed program but keeps its %s: a later source compiled and run in the base context sees them '
+                    '(after `3 0 do 1 0 / loop` fails, compile+run of `I` pushes 0 instead of failing)' % (short(fn), ', '.join(missing)), fn, w['at'])
     for fn, w, guards in found:
         okg = all(('last_error' in g or 'nested' in g or 'runtime' in g) for g in guards)
         rep.add('C10.R2', 'C10.R2:%s:halt-before-compile' % fn, okg,
